@@ -10241,8 +10241,9 @@ func float32ToF16Bits(f float32) uint32 {
 	switch {
 	case exp == 128: // inf or NaN
 		if frac != 0 {
-			// NaN: preserve some mantissa bits
-			return uint32(sign | 0x7C00 | (frac >> 13))
+			// NaN: preserve some mantissa bits; set the quiet bit so that a
+			// payload held only in the low bits does not turn into infinity
+			return uint32(sign | 0x7C00 | 0x200 | (frac >> 13))
 		}
 		return uint32(sign | 0x7C00) // inf
 	case exp > 15:
@@ -10264,14 +10265,16 @@ func float32ToF16Bits(f float32) uint32 {
 			}
 		}
 		return uint32(sign | uint32(exp+15)<<10 | f16Frac)
-	case exp >= -24:
-		// Subnormal
-		shift := uint(-14 - exp)
-		f16Frac := (frac | 0x800000) >> (shift + 13)
-		// Round
-		remainder := (frac | 0x800000) >> shift & 0x1FFF
-		if remainder > 0x1000 || (remainder == 0x1000 && f16Frac&1 != 0) {
-			f16Frac++
+	case exp >= -25:
+		// Subnormal (exp == -25 can still round up to the smallest subnormal).
+		// Round to nearest even on all the bits that are shifted out.
+		frac |= 0x800000
+		shift := uint(-14-exp) + 13
+		f16Frac := frac >> shift
+		remainder := frac & (1<<shift - 1)
+		halfway := uint32(1) << (shift - 1)
+		if remainder > halfway || (remainder == halfway && f16Frac&1 != 0) {
+			f16Frac++ // may carry into the smallest normal, which is the right encoding
 		}
 		return uint32(sign | f16Frac)
 	default:
